@@ -24,7 +24,7 @@ func init() {
 		},
 		Assume: []string{"reference equality = canonical forms (ref.Canon)", "documents beyond the bounds are not covered",
 			"SetKeys only on arrays whose member objects carry all keys with unique values", "MERGE only on null-free documents"},
-		Budget: budget(4*time.Minute, 40*time.Minute),
+		Budget: budget(7*time.Minute, 40*time.Minute),
 	})
 }
 
